@@ -27,6 +27,7 @@ fn val() -> impl Strategy<Value = Val> {
         1 => prop_oneof![(Just(0u64), 1u64..=3), (any::<u64>(), any::<u64>())].prop_map(|(h, l)| Val::T(h, l)),
         1 => prop_oneof![1u64..=3, any::<u64>().prop_map(|v| v | 1)].prop_map(Val::P),
         1 => prop::collection::vec(-2i64..=2, 0..=2).prop_map(Val::L),
+        1 => Just(Val::N),
     ]
 }
 
